@@ -236,6 +236,9 @@ def analyse_tu(tu):
     for a in mu.walk():
         if a.k == "BinaryOperator" and a.v == "=" and path(a.kids[0]) == "result->len":
             r = strip(a.kids[1])
+            # directly:  result->len = (int)sort_int_nodups(...)
+            if r is not None and r.k == "CallExpr" and callee(r) == ("fn", "sort_int_nodups"):
+                ok = True
             if r is not None and r.k == "DeclRefExpr":
                 for b in mu.walk():
                     if b.k == "BinaryOperator" and b.v == "=" and path(b.kids[0]) == r.n and \
